@@ -299,3 +299,11 @@ func Features(e Ex, out map[string]int) {
 		}
 	}
 }
+
+// Pick1 chooses one of two expressions.
+func (r *Rand) Pick1(a, b Ex) Ex {
+	if r.Intn(2) == 0 {
+		return a
+	}
+	return b
+}
